@@ -1120,6 +1120,12 @@ def small_rewrites(t):
         # {k: f(v) for k, v in pairs}[key]  ==  f(dict(pairs)[key])
         d, ce, v = _value_mapped_dict(strip(t[1]))
         return subst(v, {("item", ce, 1): ("sub", d, t[2])})
+    if h == "sub" and head(strip(t[2])) == "call" and strip(strip(t[2])[1]) == ("glob", "numpy.ix_") and len(strip(t[2])[2]) == 2 and not strip(t[2])[3]:
+        # M[np.ix_(rows, cols)] selects rows x cols by position:  M.iloc[rows, cols]
+        k_ = strip(t[2])
+        b_ = strip(t[1])
+        base_ = b_[1] if head(b_) == "attr" and b_[2] in ("values",) else t[1]
+        return ("sub", ("attr", base_, "iloc"), ("tuple", (k_[2][0], k_[2][1])))
     if h == "sub":
         b, k = strip(t[1]), strip(t[2])
         if is_const(b) and isinstance(b[2], str):
